@@ -1,11 +1,129 @@
 /-
   C12 — the client routes responses to the right command and mirrors protocol state.
-  Property theorems only (helper lemmas: Lemmas/ClientSM*.lean).
+  Property theorems only (helper lemmas: Lemmas/ClientSM{List,Sim,Inv,Iso}.lean).
+
+  Objects: `ClientSM.run` = the mirrored client (Model/ClientSM.lean, tied to imapclient after every
+  step of every generated transcript); `ClientSpec.ref` = the RFC-level interpretation of a
+  transcript and `Conformant` = what a conformant server / correct application may do
+  (Spec/ClientSM.lean, written from RFC 9051 §3, §5.5, §6.3.2, §7).
+
+  Proved, for ALL transcripts of any length:
+    refines            view (run tr) = ref tr for conformant tr (everything the specification can see)
+    mirror             state and mailbox summary equal the reference interpretation
+    routing            completed commands (status, code, data), pending commands (data so far) and
+                       unilateral data equal the reference interpretation
+    complete_once      the tags 1..n handed out are, at every moment, each either completed or
+                       pending, exactly once (no conformance needed)
+    reply_status       a permitted tagged reply completes that tag with that status and code
+    isolation          a NO/BAD (a refused literal included) removes only that command, keeps the
+                       connection open, releases the encoder and — unless it answers a SELECT —
+                       leaves state and mailbox alone (any reachable state, no conformance needed)
+    usable             after that, a NOOP answered OK completes OK and changes nothing else
+    selected_has_mailbox  state == selected implies Mailbox() != nil (the Go code relies on it)
+  Counterexamples kept for the repaired defects (Legacy.*): F18 FLAGS, F19 refused literal,
+  F20 SELECT NO, F29 mailbox after BYE.
+  Validated by the oracle only (not a theorem): that the Go client behaves like `run`
+  (correspondence), the response parser, the goroutine/channel plumbing of Wait().
 -/
-import GoImap.Model.ClientSM
-import GoImap.Spec.ClientSM
+import GoImap.Lemmas.ClientSMIso
 namespace GoImap.C12
-open GoImap.ClientSM GoImap.ClientSpec
+open GoImap.ClientSM GoImap.ClientSpec GoImap.ClientLemmas
+
+/-- on a conformant transcript the client is, in everything the specification can observe
+    (state, mailbox, tag counter, pending commands with their data, outstanding literal, liveness,
+    completions, unilateral data), exactly the reference interpretation -/
+theorem refines (tr : List Ev) (h : Conformant tr) : view (run tr) = ref tr := sim tr h
+
+theorem mirror (tr : List Ev) (h : Conformant tr) :
+    (run tr).state = (ref tr).state ∧ (run tr).mbox = (ref tr).mbox := by
+  have := sim tr h
+  exact ⟨congrArg RSt.state this, congrArg RSt.mbox this⟩
+
+theorem routing (tr : List Ev) (h : Conformant tr) :
+    (run tr).done = (ref tr).done ∧ (run tr).pending = (ref tr).pend ∧ (run tr).uni = (ref tr).uni := by
+  have := sim tr h
+  exact ⟨congrArg RSt.done this, congrArg RSt.pend this, congrArg RSt.uni this⟩
+
+/-- exactly once: completed tags followed by pending tags are a permutation of 1..cmdTag -/
+theorem complete_once (tr : List Ev) :
+    ((run tr).done.map (·.tag) ++ (run tr).pending.map (·.tag)).Perm (List.range' 1 (run tr).tagCtr) :=
+  tagsOK_run tr
+
+/-- ... with the status (and code) of the tagged response bearing its tag -/
+theorem reply_status (tr : List Ev) (t : Nat) (s : Status) (code : Code)
+    (h : Conformant (tr ++ [.tagged t s code])) :
+    ∃ k d, (run (tr ++ [.tagged t s code])).done = (run tr).done ++ [⟨t, s, code.id, k, d⟩] := by
+  obtain ⟨h1, h2⟩ := conformantFrom_append tr _ rinit h
+  have e1 : view (run tr) = ref tr := sim tr h1
+  have e2 : view (run (tr ++ [.tagged t s code])) = ref (tr ++ [.tagged t s code]) := sim _ h
+  obtain ⟨k, d, hd⟩ := rstep_tagged_done (ref tr) t s code h2
+  refine ⟨k, d, ?_⟩
+  have a : (run (tr ++ [.tagged t s code])).done = (ref (tr ++ [.tagged t s code])).done := congrArg RSt.done e2
+  have b : (run tr).done = (ref tr).done := congrArg RSt.done e1
+  rw [a, b, ref_append, hd]
+
+/-- a NO or BAD for the command with tag t (including the refusal of its literal, when the
+    encoder is waiting for `+`): every other pending command stays, with its data, in order; the
+    connection stays open; nothing is delivered to the unilateral handler; the encoder is released
+    if it was waiting on t; and unless t was a SELECT the state and the mailbox are unchanged -/
+theorem isolation (tr : List Ev) (t : Nat) (s : Status) (code : Code) (c : Cmd) (rest : List Cmd)
+    (hopen : (run tr).closed = false) (hs : s = .no ∨ s = .bad)
+    (hr : removeTag t (run tr).pending = some (c, rest)) :
+    (∃ pre post, (run tr).pending = pre ++ c :: post ∧ rest = pre ++ post ∧ c.tag = t) ∧
+    (run (tr ++ [.tagged t s code])).pending = rest ∧
+    (run (tr ++ [.tagged t s code])).closed = false ∧
+    (run (tr ++ [.tagged t s code])).uni = (run tr).uni ∧
+    (run (tr ++ [.tagged t s code])).done = (run tr).done ++ [⟨t, s, code.id, c.kind, (applyCode code c).data⟩] ∧
+    (run (tr ++ [.tagged t s code])).blocked = (if (run tr).blocked = some t then none else (run tr).blocked) ∧
+    ((∀ mb, c.kind ≠ .select mb) →
+      (run (tr ++ [.tagged t s code])).state = (run tr).state ∧
+      (run (tr ++ [.tagged t s code])).mbox = (run tr).mbox) := by
+  rw [run_append]
+  obtain ⟨a, b, c', _, e, f, g⟩ := isolation_step (run tr) t s code c rest hopen hs hr
+  exact ⟨removeTag_split t _ c rest hr, a, b, c', e, f, g⟩
+
+/-- the connection is usable: with the encoder free, a NOOP submitted now and answered OK
+    completes OK, nothing else changes -/
+theorem usable (tr : List Ev) (hopen : (run tr).closed = false) (hfree : (run tr).blocked = none) :
+    (run (tr ++ [.submit .plain] ++ [.tagged ((run tr).tagCtr + 1) .ok .none])).done =
+        (run tr).done ++ [⟨(run tr).tagCtr + 1, .ok, 0, .plain, {}⟩] ∧
+    (run (tr ++ [.submit .plain] ++ [.tagged ((run tr).tagCtr + 1) .ok .none])).pending = (run tr).pending ∧
+    (run (tr ++ [.submit .plain] ++ [.tagged ((run tr).tagCtr + 1) .ok .none])).closed = false ∧
+    (run (tr ++ [.submit .plain] ++ [.tagged ((run tr).tagCtr + 1) .ok .none])).state = (run tr).state ∧
+    (run (tr ++ [.submit .plain] ++ [.tagged ((run tr).tagCtr + 1) .ok .none])).mbox = (run tr).mbox := by
+  rw [run_append, run_append]
+  exact usable_step (run tr) (tagsOK_run tr) hopen hfree
+
+/-- Client.mailbox is non-nil whenever Client.state is selected (handleExists/handleExpunge/
+    handleFlags dereference it under that condition) -/
+theorem selected_has_mailbox (tr : List Ev) (h : (run tr).state = .selected) : (run tr).mbox.isSome = true :=
+  hasMbox_run tr h
+
+def trRefusedPrefix : List Ev := [.greet .ok true, .submit .plain, .begin .login]
+
+/-! ### the hypotheses are satisfiable: a pipelined, out-of-order, interleaved transcript -/
+
+/-- SELECT; then FETCH 1,2 ‖ STATUS 1 ‖ NOOP pipelined, answered STATUS, NOOP, FETCH, with an
+    unsolicited EXISTS, an unsolicited FETCH of message 5 and FLAGS in between; STATUS refused -/
+def trPipelined : List Ev :=
+  [.greet .preauth true, .submit (.select 0), .exists_ 4, .flags [0, 3], .permFlags [0, 6], .tagged 1 .ok (.other 3),
+   .submit (.fetch false [1, 2]), .submit (.status 1), .submit .plain,
+   .fetch ⟨2, 0, [0]⟩, .exists_ 5, .status 1 7, .tagged 3 .no (.other 2), .fetch ⟨5, 0, [3]⟩,
+   .tagged 4 .ok .none, .flags [0, 1, 3], .fetch ⟨1, 0, []⟩, .tagged 2 .ok .none]
+
+example : Conformant trPipelined := by decide
+
+example : (run trPipelined).mbox = some ⟨0, 5, [0, 1, 3], [0, 6]⟩ ∧
+    (run trPipelined).uni = [.exists_ 5, .fetch ⟨5, 0, [3]⟩, .flags [0, 1, 3]] ∧
+    (run trPipelined).done.map (fun d => (d.tag, d.status, d.code)) =
+      [(1, .ok, 3), (3, .no, 2), (4, .ok, 0), (2, .ok, 0)] := by decide
+
+/-- the hypotheses of `isolation` hold in a real situation: a NOOP pending, LOGIN waiting for `+` -/
+example : (run (trRefusedPrefix)).closed = false ∧
+    removeTag 2 (run trRefusedPrefix).pending = some (⟨2, .login, {}, []⟩, [⟨1, .plain, {}, []⟩]) ∧
+    (run trRefusedPrefix).blocked = some 2 := by decide
+
+/-! ### the repaired defects, kept as counterexamples about the shipped behaviour -/
 
 /-- F18: SELECT INBOX (3 messages, FLAGS 0 1, PERMANENTFLAGS 0 1 6), then an unsolicited FLAGS (0 1 2 3) -/
 def trFlags : List Ev :=
@@ -18,6 +136,22 @@ theorem legacy_flags_counterexample :
     (ref trFlags).mbox = some ⟨0, 3, [0, 1, 2, 3], [0, 1, 6]⟩ ∧
     (run trFlags).mbox = (ref trFlags).mbox ∧ Conformant trFlags := by decide
 
+/-- F19: LOGIN with a synchronising literal is refused (tagged NO instead of `+`) while a NOOP is
+    pending; then another NOOP -/
+def trRefused : List Ev :=
+  [.greet .ok true, .submit .plain, .begin .login, .tagged 2 .no (.other 6), .tagged 1 .ok .none,
+   .submit .plain, .tagged 3 .ok .none]
+
+/-- the shipped client closed the connection: the pending NOOP completed with an error, the state
+    became logout and the next NOOP failed -/
+theorem legacy_flush_counterexample :
+    (Legacy.run trRefused).state = .logout ∧ (Legacy.run trRefused).closed = true ∧
+    (Legacy.run trRefused).done.map (fun d => (d.tag, d.status)) = [(2, .no), (1, .closed), (3, .closed)] ∧
+    (run trRefused).state = .notAuth ∧ (run trRefused).closed = false ∧
+    (run trRefused).done.map (fun d => (d.tag, d.status)) = [(2, .no), (1, .ok), (3, .ok)] ∧
+    (ref trRefused).done.map (fun d => (d.tag, d.status)) = [(2, .no), (1, .ok), (3, .ok)] ∧
+    Conformant trRefused := by decide
+
 /-- F20: a mailbox is selected, then SELECT of another mailbox is answered NO -/
 def trSelectNo : List Ev :=
   [.greet .preauth true, .submit (.select 0), .exists_ 3, .tagged 1 .ok .none,
@@ -27,5 +161,13 @@ theorem legacy_select_counterexample :
     (Legacy.run trSelectNo).state = .selected ∧ (Legacy.run trSelectNo).mbox = some ⟨0, 3, [], []⟩ ∧
     (ref trSelectNo).state = .auth ∧ (ref trSelectNo).mbox = none ∧
     (run trSelectNo).state = .auth ∧ (run trSelectNo).mbox = none ∧ Conformant trSelectNo := by decide
+
+/-- F29: a mailbox is selected, the server says BYE and closes -/
+def trBye : List Ev :=
+  [.greet .preauth true, .submit (.select 0), .exists_ 3, .tagged 1 .ok .none, .byeClose]
+
+theorem legacy_close_counterexample :
+    (Legacy.run trBye).state = .logout ∧ (Legacy.run trBye).mbox = some ⟨0, 3, [], []⟩ ∧
+    (ref trBye).mbox = none ∧ (run trBye).mbox = none ∧ Conformant trBye := by decide
 
 end GoImap.C12
